@@ -261,7 +261,12 @@ def handle (entry : String) (j : Json) : Except String Json := do
     let jops ← getArr (← field j "ops")
     let ops ← getList parseSOp (← field j "ops")
     let t := traceSD every keys vals tuples 0 (SD.empty) ({} : SDSpec K V) (ops.zip (jops.map isKeyCall))
-    pure <| Json.mkObj [("model", Json.arr t.1), ("spec", Json.arr t.2)]
+    -- "sd[k] is the last strategy assigned to k" read off the history alone (C15.37); `null` for a name
+    -- that the history deletes through its attribute (`del sd.k`: state dependent, excluded there)
+    let last := keys.map fun k =>
+      if ops.any (fun op => match op with | .delattr (some k') => k' == k | _ => false) then Json.null
+      else jOptVal (sdLastAssigned k ops none)
+    pure <| Json.mkObj [("model", Json.arr t.1), ("spec", Json.arr t.2), ("last", Json.arr last)]
   | _ => throw s!"C15: unknown entry {entry}"
 
 end ALV.Driver.C15
